@@ -204,6 +204,10 @@ func TestC20E2(t *testing.T) {
 			if clientSide {
 				side = "client"
 			}
+			bound := bound
+			if !env.Thorough() && len(ops) >= 2 {
+				bound = 1 // both endpoints are scheduled: 2 preemptions do not finish within the quick budget
+			}
 			cases = append(cases, run.Case{ID: fmt.Sprintf("e2/13/%s/%s/b%d", ops, side, bound), Run: func(t *testing.T) run.Outcome {
 				res := Explore(bound, maxExec, c20Scenario(t, p, ops, clientSide, env.Seed+1))
 				o := run.Outcome{Incomplete: res.Capped, NonTrivial: res.Executions > 1, Evals: res.Executions, Distinct: len(res.Outcomes),
